@@ -369,6 +369,9 @@ class C20(Property):
                 line = arr[:, 0, i] if i == 0 else arr[0, :, i]
                 d = sc.sampling[i]
                 if ep[i] and n[i] == 1:
+                    ctx.count("grid:axis-skipped:endpoint-with-one-position (C17 finding inconsistent:endpoint-with-gpts-1)")
+                    if not close(arr[0, 0, i] if i == 0 else arr[0, 0, i], c["start"][i], **tol):
+                        ctx.violation("gridscan-single-position-not-at-start", c, dict(axis=i))
                     continue  # C17 known finding (sampling 0): a single position at start
                 want = [c["start"][i] + k * d for k in range(n[i])]
                 if not close_seq(line, want, **tol):
@@ -405,6 +408,15 @@ class C20(Property):
             last = b if (ls.endpoint and n > 1) else b - s * u
             if not close_seq(pos[-1], last, **tol):
                 ctx.violation(f"linescan-last-position-wrong:endpoint={ls.endpoint}", c, dict(last=pos[-1].tolist(), want=list(last), prec=prec))
+            # assigning the end point it already has must not change the scan (recorded finding for endpoint=True, see findings/C20.json)
+            if prec == "float64":
+                ls2 = line_scan(c)
+                ls2.end = ls2.end
+                if ls2.gpts != n:
+                    ctx.violation(f"linescan-reassigning-end-changes-gpts:endpoint={ls.endpoint}:delta={ls2.gpts - n:+d}", c,
+                                  dict(gpts=n, after=ls2.gpts, sampling=float(s), extent=L))
+                else:
+                    ctx.count(f"line:reassign-end-keeps-gpts:endpoint={ls.endpoint}")
             ax = ls.ensemble_axes_metadata[0]
             dist = [float(np.linalg.norm(p - a)) for p in pos.astype(float)]
             if not close_seq(fl(ax.coordinates(n)), dist, **tol):
